@@ -422,6 +422,8 @@ def small_behaviour_types(maxsize, leaves):
 
 def slot_estimate(r):
     """scratch slots a recipe needs: one per instance + 5 per aggregate assembled from members"""
+    if r[0] == "members" and len(r[1]) > 40 and all(m == r[1][0] for m in r[1]):
+        return 6 + slot_estimate(r[1][0])
     if r[0] == "copy":
         return 1 + slot_estimate(r[1])
     if r[0] == "xcopy":
@@ -622,6 +624,20 @@ def worker(arg):
     scal.append(("address", ("addrexpr", bytes(range(32))), [], []))
     scal.append(("address", ("members", [("int", i) for i in range(32)]), [], []))
     scal.append(("address", ("members", [("int", i) for i in range(31)]), [], []))
+    # lengths and counts around the byte boundary of the uint16 prefixes (254..257, 300, 1000), as literals and at run time
+    for ln in (254, 255, 256, 257, 300, 1000):
+        body = bytes((65 + i % 26) for i in range(ln))
+        for form in ("blit", "str", "bconst"):
+            scal.append(("string", (form, body), [], []))
+        scal.append(("dynbytes", ("blit", body), [], []))
+        scal.append(("string", ("bexpr", 0), [], [body]))
+        scal.append((("tuple", "string", ("uint", 16), "dynbytes"), ("members", [("blit", body), ("int", ln), ("bexpr", 0)]), [], [body[: ln // 2]]))
+        scal.append((("sbytes", ln), ("blit", body), [], []))
+    for n in (255, 256, 257):
+        scal.append((("darr", ("uint", 8)), ("members", [("int", 7)] * n), [], []))
+        scal.append((("darr", "bool"), ("members", [("bool", True)] * n), [], []))
+        scal.append((("darr", "string"), ("members", [("blit", b"")] * n), [], []))
+        scal.append((("sarr", ("uint", 16), n), ("members", [("iexpr", 0)] * n), [n], []))
     scal.append(("string", ("str", "héllo 中".encode()), [], []))
     scal.append(("string", ("members", [("int", 104), ("iexpr", 0)]), [105], []))
     for k, (t, r, ints, byts) in enumerate(scal):
